@@ -330,7 +330,55 @@ fn after_commit(run: &Run) {
     run.require_label("emoticon-typed-after-a-non-preselected-commit", 100);
 }
 
+/// "in table order" - also when the user has picked one of them before: for every English name with two or more emoji each
+/// emoji is committed in turn (a learned choice), and the name is typed again bare and wrapped, in the same context and in
+/// a restarted one: all emoji still offered, still in table order (what is learned moves the preselection, nothing else).
+fn name_again_after_each_emoji_was_chosen(run: &Run) {
+    let e = emoji();
+    let names: Vec<(String, Vec<String>)> = e.names.iter().filter(|(k, v)| typeable(k) && v.len() >= 2 && k.chars().all(|c| c.is_ascii_alphanumeric())).cloned().collect();
+    run.exhaustive(
+        "name-typed-again-after-each-of-its-emoji-was-chosen",
+        &names,
+        |_| (),
+        |(name, emojis), st, _| {
+            let sb = Sandbox::new();
+            let opts = Opts::parse("sq");
+            let case = || json!({"name_after_choice": name});
+            let pf = |p: crate::driver::PanicInfo| Failure::new(panic_kind(&p), p.to_string(), case());
+            let mut ctx = Ctx::new(opts, &sb).map_err(pf)?;
+            for (ei, em) in emojis.iter().enumerate() {
+                let r = ctx.type_frontend(name).map_err(pf)?.unwrap();
+                let Some(idx) = r.cands.iter().position(|c| c == em) else {
+                    ctx.finish().map_err(pf)?;
+                    continue;
+                };
+                ctx.commit(idx).map_err(pf)?;
+                if ei % 2 == 1 {
+                    ctx = Ctx::new(opts, &sb).map_err(pf)?;
+                }
+                for (l, t) in [("", ""), ("(", ")"), ("", "!")] {
+                    let text = format!("{l}{name}{t}");
+                    let list = type_list(&ctx, &text, None, &case)?;
+                    let want: Vec<String> = emojis.iter().map(|x| format!("{}{x}{}", curl_open(&avro(l)), curl_close(&avro(t)))).collect();
+                    st.evals(1);
+                    if want.iter().any(|w| !list.contains(w)) || !subsequence_in_order(&list, &want) {
+                        return Err(Failure::new(
+                            "emoji-order",
+                            format!("after {em:?} was chosen for {name:?}, typing {text:?}: the emoji of the entry must all be offered in table order {want:?}; list {list:?}"),
+                            case(),
+                        ));
+                    }
+                }
+            }
+            st.label("names-with-several-emoji-after-a-choice");
+            st.nontrivial(hash_of(&("after-choice", name)), || json!({"name": name, "emoji": emojis}));
+            Ok(())
+        },
+    );
+}
+
 pub fn run(run: &Run) {
+    name_again_after_each_emoji_was_chosen(run);
     after_commit(run);
     let e = emoji();
     // phonetic: emoticons
@@ -375,6 +423,34 @@ pub fn run(run: &Run) {
 }
 
 pub fn replay(run: &Run, case: &Value) -> Result<(), Failure> {
+    if let Some(name) = case["name_after_choice"].as_str() {
+        let e = emoji();
+        let Some((_, emojis)) = e.names.iter().find(|(k, _)| k == name) else { return Ok(()) };
+        let sb = Sandbox::new();
+        let opts = Opts::parse("sq");
+        let pf = |p: crate::driver::PanicInfo| Failure::new(panic_kind(&p), p.to_string(), case.clone());
+        let mut ctx = Ctx::new(opts, &sb).map_err(pf)?;
+        for (ei, em) in emojis.iter().enumerate() {
+            let r = ctx.type_frontend(name).map_err(pf)?.unwrap();
+            let Some(idx) = r.cands.iter().position(|c| c == em) else {
+                ctx.finish().map_err(pf)?;
+                continue;
+            };
+            ctx.commit(idx).map_err(pf)?;
+            if ei % 2 == 1 {
+                ctx = Ctx::new(opts, &sb).map_err(pf)?;
+            }
+            for (l, t) in [("", ""), ("(", ")"), ("", "!")] {
+                let text = format!("{l}{name}{t}");
+                let list = type_list(&ctx, &text, None, &|| case.clone())?;
+                let want: Vec<String> = emojis.iter().map(|x| format!("{}{x}{}", curl_open(&avro(l)), curl_close(&avro(t)))).collect();
+                if want.iter().any(|w| !list.contains(w)) || !subsequence_in_order(&list, &want) {
+                    return Err(Failure::new("emoji-order", format!("after {em:?} was chosen, typing {text:?}: want {want:?} in order; list {list:?}"), case.clone()));
+                }
+            }
+        }
+        return Ok(());
+    }
     let e = emoji();
     if let Some(ac) = case.get("after_commit") {
         let g = |k: &str| ac[k].as_str().unwrap_or_default().to_string();
